@@ -20,12 +20,12 @@ Qed.
 
 Theorem dict_find_correct u v :
   StronglySorted N.lt u -> 1 <= N.of_nat (length u) <= 1048576 ->
-  (In v u -> dict_find_arr (arr_of_list u) (N.of_nat (length u)) v = Some (Z.of_nat (find_index u v)) /\
-             nth (find_index u v) u 0 = v) /\
-  (~ In v u -> dict_find_arr (arr_of_list u) (N.of_nat (length u)) v = Some (-1)%Z).
+  (In v u -> dict_find_arr (dict_arr_of_list u) (N.of_nat (length u)) v = Some (Z.of_nat (dict_find_index u v)) /\
+             nth (dict_find_index u v) u 0 = v) /\
+  (~ In v u -> dict_find_arr (dict_arr_of_list u) (N.of_nat (length u)) v = Some (-1)%Z).
 Proof.
   intros Hs Hl. split.
-  - intro Hin. split; [apply dict_find_found; assumption|apply find_index_spec; assumption].
+  - intro Hin. split; [apply dict_find_found; assumption|apply dict_find_index_spec; assumption].
   - intro Hn. apply dict_find_absent; assumption.
 Qed.
 
@@ -35,10 +35,10 @@ Theorem dict_with_roundtrip u xs :
   N.of_nat (length xs) < 18446744073709551616 ->
   dict_encode_with_dict (dict_of u) xs = (dict_bytes_with u xs, true) /\
   (forall tl, dict_decode (dict_bytes_with u xs ++ tl) (N.of_nat (length (dict_bytes_with u xs)))
-             = DOk xs [8 * N.of_nat (length u); mul64 (N.of_nat (length xs)) 8]) /\
+             = DictOk xs [8 * N.of_nat (length u); mul64 (N.of_nat (length xs)) 8]) /\
   (forall tl cap, N.of_nat (length xs) <= cap ->
      dict_decode_into (dict_bytes_with u xs ++ tl) (N.of_nat (length (dict_bytes_with u xs))) cap
-     = DOk xs [8 * N.of_nat (length u)]).
+     = DictOk xs [8 * N.of_nat (length u)]).
 Proof.
   intros Hs Hl Hu Hne Hin Hc. change (sdist u) in Hs. split; [|split].
   - apply dict_encode_with_dict_is_spec; try assumption; exact Hc.
@@ -49,7 +49,7 @@ Qed.
 
 (* ---- C03 ---- *)
 Theorem dict_size_exact_thm xs d :
-  dict_build xs = BuildOk d -> Forall (fun x => x < 18446744073709551616) xs ->
+  dict_build xs = DictBuildOk d -> Forall (fun x => x < 18446744073709551616) xs ->
   8 * N.of_nat (length xs) < 18446744073709551616 ->
   dict_encoded_size xs = N.of_nat (length (fst (dict_encode xs))) /\
   dict_ret (dict_encode xs) = dict_encoded_size xs.
@@ -72,7 +72,7 @@ Qed.
 Theorem rle_decode_prefix xs tl cap :
   Forall (fun x => x < 18446744073709551616) xs -> N.of_nat (length xs) < 18446744073709551616 ->
   cap <= N.of_nat (length xs) ->
-  rle_decode (fst (rle_encode xs) ++ tl) cap = ROk (firstn (N.to_nat cap) xs) /\
+  rle_decode (fst (rle_encode xs) ++ tl) cap = RleOk (firstn (N.to_nat cap) xs) /\
   N.of_nat (length (firstn (N.to_nat cap) xs)) = cap.
 Proof.
   intros H1 H2 H3. split; [apply rle_decode_roundtrip; assumption|].
@@ -80,12 +80,27 @@ Proof.
 Qed.
 
 Theorem dict_into_all_or_nothing xs d :
-  dict_build xs = BuildOk d -> Forall (fun x => x < 18446744073709551616) xs ->
+  dict_build xs = DictBuildOk d -> Forall (fun x => x < 18446744073709551616) xs ->
   N.of_nat (length xs) < 18446744073709551616 ->
   forall tl cap,
-  dec_stores (dict_decode_into (fst (dict_encode xs) ++ tl) (N.of_nat (length (fst (dict_encode xs)))) cap)
+  dict_dec_stores (dict_decode_into (fst (dict_encode xs) ++ tl) (N.of_nat (length (fst (dict_encode xs)))) cap)
   = if cap <? N.of_nat (length xs) then [] else xs.
 Proof.
   intros Hb Hx Hc tl cap. rewrite (dict_decode_into_roundtrip xs d Hb Hx Hc).
   destruct (cap <? N.of_nat (length xs)); [destruct (cap =? 0); reflexivity|reflexivity].
+Qed.
+
+(* varintDictGetStats: the integer fields agree with the dictionary and with
+   the size predictor *)
+Theorem dict_stats_truth xs d : dict_build xs = DictBuildOk d ->
+  exists dictBytes indexBytes,
+    dict_get_stats xs = Some (N.of_nat (length (dict_values_of xs)), N.of_nat (length xs),
+                              dictBytes, indexBytes, dict_encoded_size xs, mul64 (N.of_nat (length xs)) 8) /\
+    dict_encoded_size xs = dictBytes + tagged_len (N.of_nat (length xs)) + indexBytes.
+Proof.
+  intro Hb. destruct (dict_build_ok xs d Hb) as (Hne & Hd & Hlen).
+  unfold dict_get_stats, dict_encoded_size. rewrite Hb, Hd.
+  unfold dict_encoded_size_with_dict. cbn [dct_size dct_values dct_index_width].
+  replace (N.of_nat (length xs) =? 0) with false by (destruct xs; [congruence|cbn [length]; lia]).
+  eexists. eexists. split; reflexivity.
 Qed.
